@@ -144,12 +144,16 @@ func (n *fnode) AttestationData(ctx context.Context, opts *api.AttestationDataOp
 		d.Source.Epoch = phase0.Epoch(100 + n.b.Src)
 	}
 	if n.b.Kind == "invalid" {
-		switch n.b.Inv % 3 {
+		switch n.b.Inv % 4 {
 		case 0:
 			d.Target.Epoch++ // target epoch is not the slot's epoch
 			d.Source.Epoch = d.Target.Epoch
 		case 1:
 			d.Target.Epoch--
+		case 3:
+			// consistent in itself, but for a slot of another epoch than the one asked for
+			d.Slot = opts.Slot + phase0.Slot(spe)
+			d.Target.Epoch = phase0.Epoch(uint64(d.Slot) / spe)
 		default:
 			return &api.Response[*phase0.AttestationData]{Data: nil, Metadata: map[string]any{}}, nil // missing data
 		}
@@ -192,7 +196,7 @@ func (n *fnode) Proposal(ctx context.Context, opts *api.ProposalOpts) (*api.Resp
 		return nil, err
 	}
 	fr := bellatrix.ExecutionAddress{1, 2, 3}
-	p := &api.VersionedProposal{Version: spec.DataVersionCapella, ConsensusValue: big.NewInt(int64(n.b.Rank) + 1), ExecutionValue: big.NewInt(0),
+	p := &api.VersionedProposal{Version: spec.DataVersionCapella, ConsensusValue: new(big.Int).Mul(big.NewInt(int64(n.b.Rank)+1), big.NewInt(3_000_000_000_000_000_000)), ExecutionValue: big.NewInt(0), // 3 ETH per rank, in Wei: above 2^64 from rank 6 on
 		Capella: &capella.BeaconBlock{Slot: opts.Slot, ParentRoot: keyRoot(n.b.Val, n.b.Rank), Body: &capella.BeaconBlockBody{ETH1Data: &phase0.ETH1Data{},
 			SyncAggregate:    &altair.SyncAggregate{SyncCommitteeBits: bitfield.NewBitvector512()},
 			ExecutionPayload: &capella.ExecutionPayload{FeeRecipient: fr}}}}
@@ -202,7 +206,7 @@ func (n *fnode) Proposal(ctx context.Context, opts *api.ProposalOpts) (*api.Resp
 		} else {
 			p.Blinded = true // blinded flag without a blinded block: missing data
 		}
-		p.ConsensusValue = big.NewInt(1_000_000) // tempting
+		p.ConsensusValue = new(big.Int).Mul(big.NewInt(100), big.NewInt(1_000_000_000_000_000_000)) // tempting
 	}
 	return &api.Response[*api.VersionedProposal]{Data: p, Metadata: map[string]any{}}, nil
 }
